@@ -104,6 +104,7 @@ struct SimConfig {
   double   place_unaligned_p = 0.0; // with policy 1: probability per un-hinted/hint-ignored map
   int      madv_free_mode = 0;   // 0 keep, 1 discard, 2 random per call, 3 EINVAL (unsupported)
   int      thp_einval = 0;
+  int      stable_sched = 0;     // 1: scheduling decisions are keyed by (logical thread, operation, n-th decision in it) instead of one stream
   int      hugetlb = 0;          // explicit huge pages (mmap MAP_HUGETLB): 0 none configured (ENOMEM), 1: 2 MiB pages, 2: 2 MiB and 1 GiB pages
   int      entropy_fail = 0;     // 1: getrandom ENOSYS and /dev/urandom unavailable
   bool     trace = false;
@@ -134,6 +135,7 @@ bool     sched_is_done(int vt_index);
 void     sched_barrier(int barrier_id, int parties);                 // blocks until `parties` vthreads arrived
 extern const char* g_sim_build_name;                                // "REL", "SEC", "DBG" or "UBS" (set by the harness)
 bool os_is_hugetlb(uint64_t addr);                                  // inside a mapping made of explicit huge pages (pinned: always resident)
+void     sched_set_op(int op_index);                                 // the calling vthread starts operation op_index of its program
 bool     sched_wait(uint64_t key);                                   // harness-level wait for sched_notify(key); false = gave up because nothing else could run
 void     sched_notify(uint64_t key);
 void     sched_os_point(int kind);                                   // preemption point right before a simulated OS call takes effect
